@@ -296,8 +296,25 @@ impl<'a> World<'a> {
         if !self.lst.contains(&self.rid).unwrap_or(false) {
             return;
         }
-        let before = self.l_snapshot();
         let lnid = self.actors[self.l].nid.to_string();
+        // a disk fault: the local node's signed refs reference points at somebody else's signed refs commit, so
+        // the local signed refs exist but do not verify
+        {
+            let snap = self.l_snapshot();
+            let mine = snap.get(&lnid).and_then(|m| m.get("refs/rad/sigrefs")).copied();
+            let other = snap.iter().filter(|(ns, _)| **ns != lnid && !ns.is_empty()).filter_map(|(_, m)| m.get("refs/rad/sigrefs").copied()).next();
+            if let (Some(_), Some(o)) = (mine, other) {
+                if self.ch.pick(4) == 3 {
+                    if let Ok(repo) = self.lst.repository(self.rid) {
+                        if repo.backend.reference(&format!("refs/namespaces/{lnid}/refs/rad/sigrefs"), *o, true, "sim fault").is_ok() {
+                            self.res.hit("fault.disk.local_sigrefs_unverifiable");
+                            self.res.trace.log("fault-sigrefs", "FAULT the local node's rad/sigrefs now points at another peer's signed refs".to_string());
+                        }
+                    }
+                }
+            }
+        }
+        let before = self.l_snapshot();
         let had_sigrefs = before.get(&lnid).map(|m| m.contains_key("refs/rad/sigrefs")).unwrap_or(false);
         let delegates: BTreeSet<String> = self.delegates().iter().map(|d| self.actors[*d].nid.to_string()).collect();
         let r = self.lst.clean(self.rid);
@@ -306,6 +323,12 @@ impl<'a> World<'a> {
         self.res.trace.log("clean", format!("clean -> {} (local sigrefs: {had_sigrefs}, repository exists afterwards: {exists})", if r.is_ok() { "ok" } else { "err" }));
         self.res.hit("probe.c28.clean");
         if r.is_err() {
+            // an error must not have removed anything
+            if !exists || before != after {
+                self.res.violate(&own, "C28", "C28/error-but-storage-changed", format!("clean returned an error but changed local storage (repository exists afterwards: {exists})"));
+            } else {
+                self.res.hit("probe.c28.error_left_storage_unchanged");
+            }
             return;
         }
         if !had_sigrefs {
